@@ -46,7 +46,27 @@ M = [
      "for i_key in i_keys for o_key in o_keys)", "for o_key in o_keys for i_key in i_keys)"),
     ("c41_signed_to_int", "C41", "transactron/utils/data_repr.py",
      "return x | -(x & (2 ** (xlen - 1)))", "return x | -(x & (2 ** xlen - 1))"),
-    ("c16_stack_addr", "C16", "transactron/lib/stack.py", None, None),
+    ("c16_stack_addr", "C16", "transactron/lib/stack.py",
+     "m.d.comb += data_rdport.addr.eq(next_level - 1)", "m.d.comb += data_rdport.addr.eq(next_level)"),
+    ("c01_sched_range", "C01,C07", "transactron/core/schedulers.py",
+     "conflicts = [ccl[j].run for j in range(k) if ccl[j] in gr[transaction]]",
+     "conflicts = [ccl[j].run for j in range(k - 1) if ccl[j] in gr[transaction]]"),
+    ("c04_granted_without_enable", "C04,C05", "transactron/core/manager.py",
+     "transaction.run & Cat(call.enable for call in method_map.info_by_call[(transaction, method)]).any()",
+     "transaction.run"),
+    ("c08_priority_swapped", "C08,C10", "transactron/core/manager.py",
+     "                case Priority.LEFT:\n                    pgr[end].add(begin)\n                case Priority.RIGHT:\n                    pgr[begin].add(end)",
+     "                case Priority.LEFT:\n                    pgr[begin].add(end)\n                case Priority.RIGHT:\n                    pgr[end].add(begin)"),
+    ("c02_conflict_not_symmetric", "C02,C01", "transactron/core/manager.py",
+     "                cgr[begin].add(end)\n                cgr[end].add(begin)\n", "                cgr[begin].add(end)\n"),
+    ("c07_implicit_edge_for_nonexclusive", "C07", "transactron/core/manager.py",
+     "if transaction1 is not transaction2 and not calls_nonexclusive(transaction1, transaction2, method):",
+     "if transaction1 is not transaction2:"),
+    ("c14_clear_then_write_wins", "C14", "transactron/lib/fifo.py",
+     "            allocator.clear(m)\n", "            with m.If(~self.write.run):\n                allocator.clear(m)\n"),
+    ("c15_clear_keeps_read_idx", "C15", "transactron/lib/fifo.py",
+     "            m.d.sync += read_idx.eq(0)\n", "            pass\n"),
+    ("c17_pipe_write_ready", "C17", "transactron/lib/connectors.py", None, None),
 ]
 
 
